@@ -427,6 +427,8 @@ func (d *dumper) instr(ins ssa.Instruction) J {
 		j["op"] = "MakeSlice"
 		j["len"] = d.ref(x.Len)
 		j["cap"] = d.ref(x.Cap)
+		j["lent"] = d.tid(x.Len.Type())
+		j["capt"] = d.tid(x.Cap.Type())
 	case *ssa.MapUpdate:
 		j["op"] = "MapUpdate"
 		j["map"] = d.ref(x.Map)
@@ -470,6 +472,15 @@ func (d *dumper) instr(ins ssa.Instruction) J {
 		j["low"] = d.ref(x.Low)
 		j["high"] = d.ref(x.High)
 		j["max"] = d.ref(x.Max)
+		if x.Low != nil {
+			j["lowt"] = d.tid(x.Low.Type())
+		}
+		if x.High != nil {
+			j["hight"] = d.tid(x.High.Type())
+		}
+		if x.Max != nil {
+			j["maxt"] = d.tid(x.Max.Type())
+		}
 	case *ssa.SliceToArrayPointer:
 		j["op"] = "SliceToArrayPointer"
 		j["x"] = d.ref(x.X)
